@@ -94,6 +94,19 @@ def types_unit(tier):
     for name, sig in (("by_val", "int (*)(A&, mp::Tk, Mv)"), ("by_ref", "int (*)(mp::Tk&, const A&, const mp::Tk&, mp::Tk&&)"), ("by_sp", "int (*)(std::shared_ptr<A>, std::shared_ptr<int>, virtual_ptr<A>)")):
         u.add("macro|params|%s" % name, "the function generated by YOMM2_DECLARE has the method's own parameter types, virtual_<> removed (%s)" % sig,
               "static_assert(std::is_same_v<decltype(static_cast<%s>(&mp::%s)), %s>);" % (sig, name, sig))
+    # definitions that are member functions (add_member_function): the adapter forwards its arguments like the thunk does - a move-only
+    # by-value parameter and an rvalue-reference parameter compile (and are therefore not copied)
+    u.raw("namespace mf { struct MB : A { int by_val(Mv m); int by_rref(Mv&& m, int); int by_lref(Mv& m, const Mv& c); }; }")
+    for name in ("by_val", "by_rref", "by_lref"):
+        u.add("must-compile|member-thunk|%s" % name, "the adapter of a member-function definition (%s) passes by-value and rvalue-reference parameters on without copying" % name,
+              "template struct yorel::yomm2::detail::member_function_thunk<&mf::MB::%s, decltype(&mf::MB::%s)>;" % (name, name))
+    # the classes a definition registers for its virtual parameters: one per virtual parameter of the method, whatever way the method
+    # and the definition pass a virtual_ptr (by value / by const reference, in any combination - the thunk converts both)
+    for mk, dk, nm in (("virtual_ptr<A, P>", "virtual_ptr<B, P>", "val-val"), ("const virtual_ptr<A, P>&", "const virtual_ptr<B, P>&", "ref-ref"),
+                       ("virtual_ptr<A, P>", "const virtual_ptr<B, P>&", "val-ref"), ("const virtual_ptr<A, P>&", "virtual_ptr<B, P>", "ref-val"),
+                       ("virtual_ptr<std::shared_ptr<A>, P>", "const virtual_ptr<std::shared_ptr<B>, P>&", "shared-val-ref")):
+        u.add("spec-classes|%s" % nm, "a definition taking %s for a method parameter %s registers the class B for it" % (dk, mk),
+              "static_assert(std::is_same_v<detail::spec_polymorphic_types<P, detail::types<%s, int>, detail::types<%s, int>>, detail::types<B>>);" % (mk, dk))
     # programs that must compile: one line each
     progs = [
         ("moveonly-last", "int(virtual_<A&>, std::unique_ptr<int>)", "B&, std::unique_ptr<int>", "A& a, std::unique_ptr<int> p", "a, std::move(p)"),
